@@ -123,13 +123,35 @@ func solveAll(obs []*Obligation, timeoutS, seed, par int) {
 			}
 			script := ob.Script
 			if script == "" {
-				script = ob.fx.scriptFor(ob)
+				func() {
+					defer func() {
+						if r := recover(); r != nil {
+							noteScriptError(fmt.Sprintf("%s: cannot assemble the script: %v", ob.Name, r))
+						}
+					}()
+					script = ob.fx.scriptFor(ob)
+				}()
+				if script == "" {
+					ob.Result = &SolveResult{Verdict: VUnknown, Output: "script assembly failed"}
+					return
+				}
 			}
 			to := timeoutS
 			if ob.Canary {
 				to = 3
 			}
 			r := solve(script, to, seed, false)
+			if ob.Script == "" && !ob.Canary && r.Verdict != VUnsat {
+				// second attempt with every assumption (relevance pruning may have dropped a needed one)
+				full := ob.fx.scriptForMode(ob, false)
+				if full != script {
+					r2 := solve(full, to, seed, false)
+					if r2.Verdict == VUnsat || r.Verdict == VUnknown {
+						r2.Seconds += r.Seconds
+						r = r2
+					}
+				}
+			}
 			if ob.Canary && r.Verdict != VUnsat {
 				r.Verdict = VSat // not refuted: the path is not provably dead
 				if r.Solver == "" {
